@@ -56,7 +56,7 @@ def check_no_oversell(ctx, num=1):
         g = cfg_of(f, subst_env=live)
         env = single_defs(f)
         sites = [c for fn_, c in sched.assignment_sites(P, f) if fn_.node is f.node]
-        ctx.count_min(f"Assignment( sites in {key}", len(sites), 1 if live else 3)
+        ctx.count_min(f"Assignment( sites in {key}", len(sites), 1)
         for c in sites:
             A = _snapshot_terms(P, key, f, c, s_p)
             pid = sched.asg_arg(c, "pool_id")
